@@ -8,6 +8,7 @@
    is a subset of ECMAScript by construction and by test against V8
    (go/cmd/soyverif/c14_wf.go), not by proof. *)
 (* source tie by translation: the lemmas of these files are obligations of this property *)
+From Soy Require Import Proofs.JsWfFlag.
 From Soy Require Import Proofs.SourceTieJs Proofs.SourceTieJsScope Proofs.SourceTieJsText.
 From Soy Require Import Model.Bytes Model.Num Model.Values Model.Outcome Model.Ast Model.Utf8 Model.JsEscape
   Generated.Tables Model.JsGen Spec.Codec Spec.JsOut Proofs.Utf8Proofs Proofs.CodecProofs
@@ -218,18 +219,39 @@ Proof. vm_compute. repeat split; reflexivity. Qed.
      - the recogniser js_parse of Spec/JsSyntax.v accepts the tokens (Script or Module according to the formatter),
      - the function definitions of the parse are exactly the file's templates, in order, under their qualified
        names (ES5) / ES6 identifiers,
-     - and the tokens are bracket balanced: every ) ] } closes the innermost open bracket, of its own kind.
-   MISSING for the full statement: (2) that the Soy parser's output
-   satisfies file_chk -- the harness evaluates file_chk on every accepted file it generates and reports how many
-   pass; (3) lex_bytes (render_chunks cs) = lex_chunks cs -- the harness compares the two token lists on every
-   generated file; (4) that the grammar is a subset of ECMAScript -- tested against V8 on the generated files and
-   on mutants, no formal ECMAScript grammar exists here. *)
+     - the tokens are bracket balanced: every ) ] } closes the innermost open bracket, of its own kind,
+     - and the BYTES of the file -- the rendering of the chunk list, for every predicate is_print that
+       text/template.JSEscape may consult -- lex, with the byte lexer lex_bytes, to exactly these tokens: no two
+       adjacent chunks share a token, no chunk boundary splits one (identifiers, numbers, punctuators by maximal
+       munch, the header comment, string literals, the 'line break before' flag).  So the statement is about the
+       file soyjs writes (the model's bytes are tied byte for byte to soyjs.Write by the correspondence).
+   MISSING for the full statement: (2) that the Soy parser's output satisfies file_chk -- the harness evaluates
+   file_chk on every accepted file it generates and reports how many pass; (4) that the grammar is a subset of
+   ECMAScript -- tested against V8 on the generated files and on mutants, no formal ECMAScript grammar exists here. *)
 Theorem C14_gen_output_parses_partial : forall o fuel fk name body cs,
   file_chk (o_fmt o) fk body = true -> gen_file o fuel name body = Ok cs ->
   exists ts prog, lex_chunks cs = Some ts /\ js_parse (is_module (o_fmt o)) ts = Some prog
-    /\ prog_funs prog = map (fname o) (template_names body) /\ bracket_balanced ts = true.
+    /\ prog_funs prog = map (fname o) (template_names body) /\ bracket_balanced ts = true
+    /\ forall is_print, lex_bytes (render_chunks is_print cs) = Some ts.
 Proof. exact gen_file_parses. Qed.
 Print Assumptions C14_gen_output_parses_partial.
+
+(* the same, said of the bytes alone: the file soyjs writes lexes and parses, and defines its templates *)
+Theorem C14_gen_bytes_parse_partial : forall o fuel fk name body cs is_print,
+  file_chk (o_fmt o) fk body = true -> gen_file o fuel name body = Ok cs ->
+  exists ts prog, lex_bytes (render_chunks is_print cs) = Some ts /\ js_parse (is_module (o_fmt o)) ts = Some prog
+    /\ prog_funs prog = map (fname o) (template_names body) /\ bracket_balanced ts = true.
+Proof.
+  intros o fuel fk name body cs ip Hc Hg. destruct (gen_file_parses o fuel fk name body cs Hc Hg) as (ts & prog & _ & P & F & B & Y).
+  exists ts, prog. auto.
+Qed.
+Print Assumptions C14_gen_bytes_parse_partial.
+
+(* a token the lexers flagged 'line break before' is never part of an accepted token list: the restricted production
+   (no line terminator before a postfix ++) is enforced by the recogniser, not by refusing the text in the lexer *)
+Theorem C14_js_parse_unflagged : forall md ts p, js_parse md ts = Some p -> existsb tok_flagged ts = false.
+Proof. exact js_parse_unflagged. Qed.
+Print Assumptions C14_js_parse_unflagged.
 
 (* whatever the recogniser accepts -- model tokens, tokens of real bytes, anything -- is bracket balanced *)
 Theorem C14_js_parse_balanced : forall md ts p, js_parse md ts = Some p -> bracket_balanced ts = true.
